@@ -12,12 +12,26 @@ VIEW = re.compile(r'(Deref>::deref|Deref::deref|::as_str|::as_ref|::borrow|::as_
 CORE_FORMAT = re.compile(r'^typstyle_core::Typstyle::(format_content|format_source|format_source_inspect|format_source_range)$|^typstyle_core::format_with_width$')
 
 
+# private single-call-site functions that the rules address as units of their own (anchored by role elsewhere)
+KEEP_UNITS = ()
+
+
+def _ops(st):
+    if st['s'] != 'assign':
+        return []
+    rv = st['rv']
+    out = [rv[k] for k in ('op', 'a', 'b') if isinstance(rv.get(k), dict)]
+    return out + list(rv.get('ops', []))
+
+
 class Cli:
     def __init__(self, w):
         self.w = w
         if w.cli is None:
             raise AnchorMissing('crate typstyle (CLI) is not part of this build configuration')
         self.views = {}
+        self._fns = None
+        self.expanded = []
         self.main = self._one('typstyle::main')
         self.writers = self._writers()
 
@@ -33,14 +47,65 @@ class Cli:
         return b
 
     def fns(self):
-        return list(self.w.fn_bodies(self.w.cli))
+        """the functions of the CLI crate, *normalised*: a private, non-recursive helper that is called from exactly one place is expanded into its
+        caller (inline.py) and not listed on its own - extracting a block of `format_all` into `fn process_entry(..)`, or a predicate into
+        `fn is_typ_file(..)`, leaves the analysed program unchanged.  Functions with several call sites, public functions and closures stay units."""
+        if self._fns is None:
+            import inline
+            w = self.w
+            orig = list(w.fn_bodies(w.cli))
+            sites = {}
+            for b in orig:
+                for bi, t in b.calls():
+                    rid = resolved_id(t)
+                    if rid in w.bodies and w.bodies[rid].crate is w.cli:
+                        sites.setdefault(rid, []).append(b.id)
+                # function values (`.filter_entry(is_hidden)`) count as uses that keep the function a unit
+                for blk in b.blocks:
+                    for st in blk['stmts']:
+                        for o in _ops(st):
+                            if o.get('o') == 'const' and 'fn' in o and o['fn']['def']['id'] in w.bodies:
+                                sites.setdefault(o['fn']['def']['id'], []).extend(['fnval', 'fnval'])
+                    if blk['term']['t'] == 'call':
+                        for o in blk['term']['args']:
+                            if o.get('o') == 'const' and 'fn' in o and o['fn']['def']['id'] in w.bodies:
+                                sites.setdefault(o['fn']['def']['id'], []).extend(['fnval', 'fnval'])
+            edges, _ = w.callgraph()
+
+            def effect_free(cb):
+                # a small helper without file effects and without library calls (e.g. `fn ensure_no_errors(n) -> Result<()>`): expanded at every call site
+                if len(cb.blocks) > 30:
+                    return False
+                for x in w.reachable([cb.id]):
+                    xb = w.bodies.get(x)
+                    if xb is None:
+                        continue
+                    for _, t2 in xb.calls():
+                        pth = resolved_path(t2) or callee_path(t2) or ''
+                        if effects.FILE_MUTATING.search(pth) or CORE_FORMAT.search(pth) or re.search(r'read_to_string$|std::fs::|std::io::', pth):
+                            return False
+                return True
+
+            def helper(cb):
+                n_sites = len(sites.get(cb.id, []))
+                return (cb.crate is w.cli and cb.def_kind == 'Fn' and not cb.j.get('is_pub') and cb.id != 'typstyle::main'
+                        and (n_sites == 1 or (n_sites > 1 and 'fnval' not in sites.get(cb.id, []) and effect_free(cb)))
+                        and cb.id not in w.reachable(edges.get(cb.id, ())) and not cb.j.get('impl_trait') and cb.short not in KEEP_UNITS)
+            gone = {b.id for b in orig if helper(b)}
+            self._fns = [inline.inline_body(w, b, lambda cb, t, d: cb.id in gone, desugar=False) for b in orig if b.id not in gone]
+            self.expanded = sorted(gone)
+        return self._fns
 
     def _writers(self):
         """[(body, bb, term, path)] direct file-mutating extern calls in the CLI crate"""
         out = []
         for b in self.fns():
-            for (bi, t, path, c) in self.w.extern_calls(b.id):
-                if t is not None and effects.FILE_MUTATING.search(path):
+            for bi, t in b.calls():
+                rid = resolved_id(t)
+                if rid in self.w.bodies or not t.get('callee'):
+                    continue
+                path = resolved_path(t) or callee_path(t) or ''
+                if effects.FILE_MUTATING.search(path):
                     out.append((b, bi, t, path))
         return out
 
@@ -97,7 +162,14 @@ class Cli:
                 if p.endswith('Try>::branch') or p.endswith('Try::branch'):
                     inner = v.pv.origins_operand(t['args'][0])
                     if proj[:2] == (('v', 0), ('f', 0)):
-                        tags |= self.classify_text(b, {(x[0], x[1], x[2] + (('v', 0), ('f', 0)) + proj[2:]) for x in v.pv.peel(inner)}, depth + 1)
+                        # Continue payload == Ok payload; applied step by step so that a Result built in an expanded helper (`Ok(content)`) resolves to its operand
+                        cur = v.pv.peel(inner)
+                        for e in (('v', 0), ('f', 0)) + tuple(proj[2:]):
+                            nxt = set()
+                            for x in cur:
+                                nxt |= v.pv._project(x, e, frozenset())
+                            cur = v.pv.peel(nxt)
+                        tags |= self.classify_text(b, cur, depth + 1)
                         continue
                 if re.search(r'with_context$|::context$|map_err$', p) and t['args']:
                     inner = v.pv.origins_operand(t['args'][0])
